@@ -199,7 +199,27 @@ func PropC01(c *vs.Case, f Factory, kind string) error {
 			}
 			history = append(history, fmt.Sprintf("sync#%d", env.Syncs))
 		}
-		switch c.Weighted(3, 2, 2, 2, 1, 1) {
+		switch c.Weighted(3, 2, 2, 2, 1, 1, 1) {
+		case 6: // an owned child is deleted and at once re-created by someone else as a matching look-alike (new UID, generation 1)
+			owned := env.OwnedChildren()
+			if len(owned) > 0 && scn.Cfg.Kind == "composite" {
+				o := owned[c.Int(len(owned))]
+				d := env.W.Sim.DefByKind(o["apiVersion"].(string), o["kind"].(string))
+				env.W.Sim.Purge(d.Resource, metaStr(o, "namespace"), metaStr(o, "name"))
+				obj := map[string]any{"apiVersion": d.APIVersion(), "kind": d.Kind, "metadata": map[string]any{"name": metaStr(o, "name"), "labels": env.MatchLabels()}}
+				if ns := metaStr(o, "namespace"); ns != "" {
+					obj["metadata"].(map[string]any)["namespace"] = ns
+				}
+				if d.Resource == "configmaps" {
+					obj["data"] = map[string]any{"v": "someone-elses"}
+				} else {
+					obj["spec"] = map[string]any{"v": "someone-elses"}
+				}
+				if _, err := env.W.Sim.ExtCreate(d.Resource, obj); err == nil {
+					history = append(history, "replaced "+ObjID(o)+" by a matching look-alike")
+					c.Class("history:owned-child-replaced-by-look-alike")
+				}
+			}
 		case 5: // scale to zero, let the children go, someone re-creates one of them differently, scale back
 			n, _ := env.Parent()["spec"].(map[string]any)["replicas"].(int64)
 			var gone []map[string]any
